@@ -25,7 +25,9 @@ STREAMS = {
     # an asynchronous interrupt at EVERY step of an evaluation in turn, probes judged after each
     'intsweep': {'quick': 100, 'thorough': 2500, 'chunk': 4, 'selftest_max': 6},
     # the live-object census on generated formulas: one formula repeated, growth measured
-    'leak': {'quick': 2000, 'thorough': 60000, 'chunk': 40, 'selftest_max': 30},
+    'leak': {'quick': 1600, 'thorough': 60000, 'chunk': 40, 'selftest_max': 30},
+    # heavy re-registration in a tiny namespace (names that shadow built-ins included), judged after every step
+    'rebind': {'quick': 2000, 'thorough': 100000, 'chunk': 100},
 }
 
 CLOCKS = ['2024-02-29T13:14:15.161718', '2024-02-29T23:59:59.999999', '2024-03-01T00:00:00', '1900-01-01T00:00:00',
@@ -176,7 +178,92 @@ def execute_leak(sc, stats):
     return []
 
 
+RB_VARS = ['va', 'vb', 'Rate']
+RB_FNS = ['FA', 'SUM', 'LEN']
+RB_FORMS = ['va', 'vb+1', 'Rate&"x"', 'FA()', 'SUM(1,2)', 'LEN("abc")', 'A1', 'B2:A1', 'A1+va', 'SUM(A1:B2)', 'FA()&SUM(3)', 'IF(va,LEN("ab"),A1)',
+            'TRUE', '{1,2}', 'SUM(va,vb)', 'LEN(Rate)', 'zz_top', 'PI()']
+
+
+def gen_rebind(rng, i):
+    ops = []
+    n = [0]
+
+    def val():
+        n[0] += 1
+        return rng.choice([V.I(1000 + n[0]), V.S('t%d' % n[0]), V.I(0), V.FALSE, V.NONE, V.L(V.I(n[0]), V.I(2))])
+    for _ in range(rng.choice([6, 10, 16, 24])):
+        r = rng.random()
+        if r < 0.14:
+            ops.append(['var', rng.choice(RB_VARS), val()])
+        elif r < 0.28:
+            ops.append(['fn', rng.choice(RB_FNS), [{'a': 'ret', 'v': val()}]])
+        elif r < 0.40:
+            ops.append(['unfn', rng.choice(RB_FNS)])
+        elif r < 0.50:
+            ops.append(['on', rng.choice(EVENTS), [{'a': rng.choice(['set', 'set', 'noset']), 'v': [val()]}]])
+        elif r < 0.58:
+            ops.append(['off', rng.choice(EVENTS)])
+        else:
+            ops.append(['eval', rng.choice(RB_FORMS)])
+    for f in rng.sample(RB_FORMS, 5):
+        ops.append(['eval', f])
+    return {'engine': 'rebind', 'ops': ops, 'clock': CLOCKS[0], 'rand': 0.25, 'tick_us': None, 'debug': rng.random() < 0.2,
+            'ref_mode': 'cleanroom' if rng.random() < 0.3 else 'inprocess', 'slots': []}
+
+
+def execute_rebind(sc, stats):
+    spec = {'debug': bool(sc.get('debug')), 'variables': {}, 'functions': {}, 'listeners': {}}
+    world = World([scen.clone(spec)])
+    slot = world.slots[0]
+    clock = StepClock()
+    vio = []
+    for k, op in enumerate(sc['ops']):
+        kind = op[0]
+        if kind == 'var':
+            spec['variables'][op[1]] = op[2]
+            slot.bind_variable(op[1], op[2])
+        elif kind == 'fn':
+            spec['functions'][op[1]] = op[2]
+            slot.bind_function(op[1], op[2])
+        elif kind == 'unfn':
+            spec['functions'].pop(op[1], None)
+            slot.parser.set_function(op[1], None)
+            stats['fault:unset_function'] += 1
+        elif kind == 'on':
+            lst = spec['listeners'].setdefault(op[1], [])
+            script = [dict(a) for a in op[2]]
+            for a in script:
+                if a['a'] == 'noset':
+                    a.pop('v', None)
+            slot.bind_listener(op[1], len(lst), script)
+            lst.append(script)
+        elif kind == 'off':
+            spec['listeners'].pop(op[1], None)
+            slot.parser.off(op[1])
+        elif kind == 'eval':
+            _set_env(sc, sc['clock'])
+            got = _outcome(world, clock, 0, op[1], 200)
+            if sc.get('ref_mode') == 'cleanroom':
+                from hxsim import cleanroom
+                ref = cleanroom.call('checks.c02', 'cleanroom_eval', scen.clone(spec), op[1], sc['clock'], None, sc['rand'])
+            else:
+                _set_env(sc, sc['clock'])
+                ref = _outcome(World([scen.clone(spec)]), clock, 0, op[1], 200)
+            stats['evals'] += 1
+            if got != ref:
+                vio.append({'invariant': 'H1_history_dependence', 'sig': 'H1',
+                            'detail': {'op': k, 'formula': _esc(op[1]), 'in_history': got, 'fresh_parser': ref,
+                                       'ops_before': [o[:2] for o in sc['ops'][:k]][-10:]}})
+                break
+    stats['steps'] += clock.steps
+    stats['fault:rebind_function'] += sum(1 for o in sc['ops'] if o[0] == 'fn')
+    sc['_nt'] = [1]
+    return vio
+
+
 def gen(stream, rng, i, cfg):
+    if stream == 'rebind':
+        return gen_rebind(rng, i)
     if stream == 'leak':
         return gen_leak(rng, i)
     if stream == 'intsweep':
@@ -209,14 +296,21 @@ def gen(stream, rng, i, cfg):
                 f = 'SUM(1,%s)' % f
             ops.append(['eval_abort', s, f, clock])
         elif r < w_int + 0.05 + w_rebind:
-            k = rng.randrange(4)
-            if k == 0:
+            k = rng.randrange(5)
+            if k == 4:
+                # take a custom function away again (set_function(name, None)): the built-in, if any, is back
+                name = rng.choice(sorted(specs[s]['functions']) + ['SUM', 'F0', 'LEN'])
+                if name == 'ABORT':
+                    name = 'SUM'
+                specs[s]['functions'].pop(name, None)
+                ops.append(['unset_fn', s, name])
+            elif k == 0:
                 name = rng.choice(sorted(specs[s]['variables']) + ['v_0', 'v_9'])
                 val = scen.pick_value(rng, False)
                 specs[s]['variables'][name] = val
                 ops.append(['rebind_var', s, name, val])
             elif k == 1:
-                name = rng.choice([n for n in sorted(specs[s]['functions']) if n != 'ABORT'] + ['F0', 'F3'])
+                name = rng.choice([n for n in sorted(specs[s]['functions']) if n != 'ABORT'] + ['F0', 'F3', 'SUM', 'LEN'])
                 script = scen.gen_fn_script(rng, fault, False, scen.BENIGN_EXC)
                 specs[s]['functions'][name] = script
                 ops.append(['rebind_fn', s, name, script])
@@ -347,6 +441,8 @@ def _references(sc, stats, clock, reverse=False):
             specs[op[1]]['variables'][op[2]] = op[3]
         elif kind == 'rebind_fn':
             specs[op[1]]['functions'][op[2]] = op[3]
+        elif kind == 'unset_fn':
+            specs[op[1]]['functions'].pop(op[2], None)
         elif kind == 'add_listener':
             specs[op[1]]['listeners'].setdefault(op[2], []).append(op[3])
         elif kind == 'off':
@@ -430,6 +526,10 @@ def execute(sc, stats):
             live_specs[op[1]]['functions'][op[2]] = op[3]
             world.slots[op[1]].bind_function(op[2], op[3])
             stats['fault:rebind_function'] += 1
+        elif kind == 'unset_fn':
+            live_specs[op[1]]['functions'].pop(op[2], None)
+            world.slots[op[1]].parser.set_function(op[2], None)
+            stats['fault:unset_function'] += 1
         elif kind == 'add_listener':
             lst = live_specs[op[1]]['listeners'].setdefault(op[2], [])
             world.slots[op[1]].bind_listener(op[2], len(lst), op[3])
@@ -486,6 +586,8 @@ def nontrivial(sc, stats):
         return canon.digest_int([sc['slots'], sc['victim'], sc['probes']]) if nt else None
     if sc.get('engine') == 'leak':
         return canon.digest_int([sc['slots'], sc['formula']]) if nt else None
+    if sc.get('engine') == 'rebind':
+        return canon.digest_int(sc['ops'])
     if not nt or len(sc['ops']) < 2:
         return None
     return canon.digest_int([sc['slots'], sc['ops']])
@@ -668,6 +770,12 @@ def single_process_tasks(tier, seed, cfg):
 def shrink_candidates(sc):
     if 'census_class' in sc:
         return
+    if sc.get('engine') == 'rebind':
+        for c in scen.shrink_list(sc['ops'], 1):
+            d = dict(sc)
+            d['ops'] = c
+            yield d
+        return
     if sc.get('engine') == 'leak':
         for s in scen.shrink_slot(sc['slots'][0]):
             d = dict(sc)
@@ -746,6 +854,8 @@ def execute(sc, stats):  # noqa: F811  (dispatch: census replays vs histories)
         return execute_intsweep(sc, stats)
     if sc.get('engine') == 'leak':
         return execute_leak(sc, stats)
+    if sc.get('engine') == 'rebind':
+        return execute_rebind(sc, stats)
     if 'census_class' in sc:
         r = census_task({'N': sc.get('N', 200), 'block_tol': 150})
         return [v for s, vs in r['violations'] if s['census_class'] == sc['census_class'] for v in vs] or \
@@ -776,7 +886,7 @@ def describe():
                 'parameter name, error values among them, wrapped in IFERROR/ISERROR); distinct = distinct (slots, operation list) by blake2b digest; '
                 'non-trivial = history of >= 2 operations in which at least one judged evaluation produced a value',
         'fault_kinds': ['interrupt_timeout', 'interrupt_abort', 'interrupt_sweep_point', 'cb_abort', 'cb_raise', 'listener_raise',
-                        'syntaxerror_from_callback', 'rebind_variable', 'rebind_function', 'rebind_listener', 'listener_off',
+                        'syntaxerror_from_callback', 'rebind_variable', 'rebind_function', 'unset_function', 'rebind_listener', 'listener_off',
                         'debug_toggle', 'parser_built_mid_history', 'reference_in_pristine_process', 'clock_jump_forward', 'clock_jump_back', 'clock_tick'],
         'real_vs_stub': {'hotxlfp (all of it)': 'real', 'ply lex/yacc, dateutil': 'real', 'host callbacks': 'scripted',
                          'wall clock': 'stub (SimClock; jumps between operations, optional tick per read)',
